@@ -721,7 +721,8 @@ fn run_same(ws: &[&str]) -> String {
         let a = go(0);
         let m = go(1);
         if a == m {
-            format!("same {}", a.split(' ').next().unwrap_or(""))
+            // (the whole observation: the driver also compares it across adapters and across the blocking / future-based twins)
+            format!("same {}", a)
         } else {
             format!("differ adapter=[{}] memory=[{}]", a, m)
         }
